@@ -10,7 +10,7 @@ META = {
     "explanation": "R1 limiter protocol: in every impl of CommandSizeLimiter::try_arg all writes to self are dominated by the Ok edge of cursor.try_next and the locally built refusal carries the same argument; "
                    "R2 guarded increment: (initial value, comparison, increment, refusal edge) of each limiter vs the oracle table; the -s cost is computed once and is the value compared and added; "
                    "R3 linear handling: Argument is neither Clone nor Copy, is constructed only by the readers / for initial arguments, CommandBuilder::execute consumes the builder, every batch starts from a clone of the template limiters, extra_args only grows by push; "
-                   "R4 initial arguments charged once, passed first and unchanged; R5 process_input decision graph simulated against the reference flush-and-retry loop on every assignment of its atoms (refill/accept/refuse/-x/-r/pending/child result)",
+                   "R6 which arguments end an input line (terminator flag writers of the default reader: a line ending in a blank continues); R4 initial arguments charged once, passed first and unchanged; R5 process_input decision graph simulated against the reference flush-and-retry loop on every assignment of its atoms (refill/accept/refuse/-x/-r/pending/child result)",
     "decides": "the batching protocol on every path: no argument dropped, duplicated or reordered by the loop, limits checked before state updates, refusal only on the failing side of the limit comparison",
     "does_not_decide": "numeric maximality across interacting limiters for concrete lengths; that the -s cost equals what the OS charges (C06)",
 }
@@ -383,6 +383,17 @@ def run(ctx):
             ro = prim.origin_of_operand(ex, extra[0][1].args[0])
             ok = any(c.a["name"] == "args" for c in ro.call_nodes())
         ctx.ob("R4", "initial-then-appended", ok, "without -I the command line must be the initial arguments followed by the appended ones (Command::args(initial).args(extra_args)); found %s" % [(prim.site(ex, b), sorted(k)) for b, _, k in descs], fn=ex, how="provenance + dominance")
+
+    # ---- R6 line accounting input: which arguments end an input line (shared with C05.R5) --------------------
+    from ..engine import Ctx
+    from . import c05
+    sub = Ctx("C05", prog, ctx.tier)
+    c05.run(sub)
+    for o in sub.obs:
+        if o.rule == "C05.R5":
+            ctx.ob("R6", o.key, o.ok, o.msg, where=o.where, how=o.how)
+            if o.fn:
+                ctx.analysed_fns.add(o.fn)
 
     # ---- R5 process_input decision graph ------------------------------------------------------------------
     f, g = process_graph(ctx, "R5")
